@@ -16,7 +16,7 @@ with tempfile.TemporaryDirectory() as d:
             del env[k]
     subprocess.run(
         ["/venv/bin/python", "-m", "pytest", "-q", "-p", "no:cacheprovider", "-x" if False else "-q",
-         "--timeout=900", "--continue-on-collection-errors", f"--junitxml={xml}", "-n", "8"],
+         "--timeout=" + os.environ.get("BASELINE_TIMEOUT", "900"), "--continue-on-collection-errors", f"--junitxml={xml}", "-n", "8"],
         cwd=repo, env=env, stdout=subprocess.DEVNULL, stderr=subprocess.DEVNULL)
     passed = set()
     for tc in ET.parse(xml).getroot().iter("testcase"):
